@@ -499,6 +499,7 @@ func runExplore(args []string) error {
 	truncated := false
 	for qi := 0; qi < len(states); qi++ {
 		if p.MaxStates > 0 && len(states) > p.MaxStates {
+			// stop expanding: what has been explored (all histories up to this breadth-first frontier) is still written out and judged
 			truncated = true
 			break
 		}
